@@ -422,7 +422,22 @@ pub fn gen_jumbo(rng: &mut Rng) -> Vec<u8> {
 pub fn gen_fault(rng: &mut Rng) -> Vec<u8> {
     let v = gen_valid(rng);
     let sp1 = v.iter().position(|c| *c == b' ').unwrap();
-    match rng.below(9) {
+    match rng.below(10) {
+        9 => {
+            // a bare CR inside a header name (the line still has its colon)
+            let p = find(&v, b" HTTP/").unwrap();
+            let e = p + v[p..].iter().position(|c| *c == b'\n').unwrap() + 1;
+            let mut o = v[..e].to_vec();
+            let name = token(rng, 2, 10);
+            let k = rng.range(1, name.len() as u64 - 1) as usize;
+            o.extend_from_slice(&name[..k]);
+            o.push(b'\r');
+            o.extend_from_slice(&name[k..]);
+            o.extend_from_slice(b": x");
+            o.extend_from_slice(if rng.chance(1, 2) { b"\r\n" } else { b"\n" });
+            o.extend_from_slice(&v[e..]);
+            o
+        }
         0 => {
             // unknown method
             let m = *rng.pick(&["GOT", "FETCH", "PROPFIND", "GETS", "XGET", "HTTP", "PUTT", "DELET"]);
